@@ -25,7 +25,7 @@ Section Paths.
   Proof.
     apply (node_ind' (fun n => forall u o, In (u, o) (node_entries E site drive P n) -> o_folder o = false));
       try (intros; simpl in *; tauto).
-    intros nm i ch HF u o. cbn [node_entries]. intro H. apply in_app_or in H as [H|H].
+    intros nm i fc ch HF u o. cbn [node_entries]. intro H. apply in_app_or in H as [H|H].
     - eapply pages_no_folder; eauto.
     - apply in_flat_map in H as (c & Hc & Hin). rewrite Forall_forall in HF. eapply HF; eauto.
   Qed.
@@ -38,7 +38,7 @@ Section Paths.
     apply (node_ind' (fun n => forall path u i ch, In (u, (i, ch)) (path_folders E site drive path n) ->
                                  In (u, item_obj i true) (node_path_entries E site drive path n)));
       try (intros; simpl in *; tauto).
-    intros nm i0 ch0 HF path u i ch. destruct nm as [nm|]; cbn [path_folders node_path_entries]; [|tauto].
+    intros nm i0 fc0 ch0 HF path u i ch. destruct nm as [nm|]; cbn [path_folders node_path_entries]; [|tauto].
     intros [H|H]; [inversion H; left; reflexivity|]. right.
     apply in_flat_map in H as (c & Hc & Hin). apply in_flat_map. exists c. split; [exact Hc|].
     rewrite Forall_forall in HF. eapply HF; eauto.
@@ -57,7 +57,7 @@ Section Paths.
       /\ forallb ids_ok ch = true /\ forallb (links_ok P) ch = true /\ cuts_ok (P i) = true
       /\ need P i ch <= need_node P n));
       try (intros; simpl in *; tauto).
-    intros nm i0 ch0 HF path u i ch. destruct nm as [nm|]; cbn [path_folders]; [|simpl; tauto].
+    intros nm i0 fc0 ch0 HF path u i ch. destruct nm as [nm|]; cbn [path_folders]; [|simpl; tauto].
     intros Hin Hi Hl. cbn [ids_ok] in Hi. cbn [links_ok] in Hl.
     apply andb_true_iff in Hi as [Hi0 Hi]. apply andb_true_iff in Hl as [Hl0 Hl].
     destruct Hin as [H|H].
@@ -67,7 +67,7 @@ Section Paths.
       destruct (HF c Hc _ _ _ _ Hin (Hi c Hc) (Hl c Hc)) as (Hincl & H1 & H2 & H3 & H4).
       repeat split; auto.
       + intros x Hx. cbn [node_entries]. apply in_or_app. right. apply in_flat_map. exists c. split; auto.
-      + change (need_node P (Folder (Some nm) i0 ch0)) with (need P i0 ch0). unfold need at 2.
+      + change (need_node P (Folder (Some nm) i0 fc0 ch0)) with (need P i0 ch0). unfold need at 2.
         pose proof (list_sum_In (need_node P) ch0 c Hc). lia.
   Qed.
 
@@ -80,7 +80,7 @@ Section Paths.
                                  o_folder o = true -> exists ic, In (u, ic) (path_folders E site drive path n))).
     - intros f path u o. cbn [node_path_entries]. destruct (i_name f); [|simpl; tauto].
       intros [H|[]] Hf. inversion H; subst. discriminate.
-    - intros nm i0 ch0 HF path u o. destruct nm as [nm|]; cbn [path_folders node_path_entries]; [|simpl; tauto].
+    - intros nm i0 fc0 ch0 HF path u o. destruct nm as [nm|]; cbn [path_folders node_path_entries]; [|simpl; tauto].
       intros [H|H] Hf.
       + inversion H; subst. eexists. left. reflexivity.
       + apply in_flat_map in H as (c & Hc & Hin). rewrite Forall_forall in HF.
